@@ -1,7 +1,7 @@
 import FlexModel.Proto
 import FlexModel.Fac.Mapping
 namespace FlexModel.Fac.Mapping
-open FlexModel.Proto Generated.Fac
+open FlexModel.Proto Generated.Fac Generated.Fac11
 
 /-- "num/den" or integer -/
 def rat? (s : String) : Option Rat :=
@@ -17,38 +17,125 @@ def optRat? (s : String) : Option (Option Rat) := if s == "-" then some none els
 def pair? (a b : Option Rat) : Option (Rat × Rat) :=
   match a, b with | some x, some y => some (x, y) | _, _ => none
 
-/-- msg kind lat7 lon7 alt100 epx epx100 epy epy100 epv epd epd10 track10 speed100   (each exact rational or `-`)
-    → lat lon major minor orient alt altconf heading hconf speed
-    gdt utcMs → gdt ;  rec msec rxMs → reconstructed -/
-def mapStep (_ : Unit) (t : List String) : Unit × String :=
+/-- 12 tokens `lat7 lon7 alt100 epx epx100 epy epy100 epv epd epd10 track10 speed100` (each an exact rational or `-`) -/
+def report? (t : List String) : Option Report :=
   match t with
-  | ["msg", kind, la, lo, al, ex, ex100, ey, ey100, ev, ed, ed10, tr, sp] =>
+  | [la, lo, al, ex, ex100, ey, ey100, ev, ed, ed10, tr, sp] =>
     match optRat? la, optRat? lo, optRat? al, optRat? ex, optRat? ex100, optRat? ey, optRat? ey100,
           optRat? ev, optRat? ed, optRat? ed10, optRat? tr, optRat? sp with
     | some la, some lo, some al, some ex, some ex100, some ey, some ey100, some ev, some ed, some ed10, some tr, some sp =>
-      let errs : Option (Err × Err) :=
-        match pair? ex ex100, pair? ey ey100 with
-        | some (a, b), some (c, d) => some (⟨a, b⟩, ⟨c, d⟩)
-        | _, _ => none
-      if kind == "cam" then
-        let e := camEllipse errs
-        ((), s!"{latitude la} {longitude lo} {e.major} {e.minor} {e.orientation} {altitude camAlt al} {altConf ev} {heading CAM_HEADING_MOD tr} {headingConf (pair? ed ed10)} {camSpeed sp}")
-      else if kind == "vam" then
-        let e := vamEllipse errs
-        ((), s!"{latitude la} {longitude lo} {e.major} {e.minor} {e.orientation} {altitude vamAlt al} {altConf ev} {heading VAM_HEADING_MOD tr} {headingConf (pair? ed ed10)} {vamSpeed sp}")
-      else if kind == "denm" then
-        ((), s!"{latitude la} {longitude lo} {altitude denmAlt al}")
-      else ((), "bad-op")
-    | _, _, _, _, _, _, _, _, _, _, _, _ => ((), "bad-op")
+      some { lat := la, lon := lo, alt := al,
+             epx := (pair? ex ex100).map (fun p => ⟨p.1, p.2⟩), epy := (pair? ey ey100).map (fun p => ⟨p.1, p.2⟩),
+             epv := ev, epd := pair? ed ed10, track := tr, speed := sp }
+    | _, _, _, _, _, _, _, _, _, _, _, _ => none
+  | _ => none
+
+def showFields (f : Fields) : String :=
+  s!"{f.lat} {f.lon} {f.ell.major} {f.ell.minor} {f.ell.orientation} {f.alt} {f.altConf} {f.heading} {f.hconf} {f.speed}"
+
+def showPos (p : EvPos) : String := s!"{p.lat} {p.lon} {p.alt}"
+
+def showInfo : InfoRes → String
+  | .absent => "absent"
+  | .info i r c => s!"info {i} {r} {c}"
+  | .fail => "fail"
+
+/-- driver state: ONE CAM transmission management (report cache + send state) and ONE emergency-vehicle service -/
+structure Drv where
+  cache : Option Report := none
+  eva : EvPos := evUnavailable
+  tx : Tx := {}
+
+def bits? (s : String) : Option (List Bool) :=
+  s.toList.mapM (fun c => if c == '1' then some true else if c == '0' then some false else none)
+
+/-- msg kind <report>            → lat lon major minor orient alt altconf heading hconf speed   (stateless builders)
+    reset                        → ok        (fresh transmission management / service)
+    camrep <report>              → ok        (location_service_callback on the CAM transmission management)
+    camtick                      → fields of the CAM built from the cached report | none
+    denmrep <report>             → lat lon alt of the DENM event position (trigger_denm_sending on the same service)
+    tx role nowMs                → sent <roleName|-> | skipped          (one generation attempt)
+    role r                       → name index|-
+    gdt utcMs → gdt ;  rec msec rxMs → reconstructed ;  clock p3 p6 → camMs vamMs ;  ms p6 → from_timestamp ms
+    rxrec cam|vam msec p3 p6     → generation time reconstructed by the reception management reading its clock
+    conc leader hasCluster id radius card sched(0/1*) → absent | info id radius card | fail
+    uper lo:hi:v …               → value bits   (the encoder's accumulator after the constrained INTEGER fields) -/
+def mapStep (s : Drv) (t : List String) : Drv × String :=
+  match t with
+  | "msg" :: kind :: rest =>
+    match report? rest with
+    | some r =>
+      if kind == "cam" then (s, showFields (camFields r))
+      else if kind == "vam" then (s, showFields (vamFields r))
+      else if kind == "denm" then (s, showPos (denmPos r))
+      else (s, "bad-op")
+    | none => (s, "bad-op")
+  | ["reset"] => ({}, "ok")
+  | "camrep" :: rest =>
+    match report? rest with
+    | some r => ({ s with cache := cacheStep CAM_TPV_CACHE_REPLACE s.cache r }, "ok")
+    | none => (s, "bad-op")
+  | ["camtick"] =>
+    match s.cache with
+    | some r => (s, showFields (camFields r))
+    | none => (s, "none")
+  | "denmrep" :: rest =>
+    match report? rest with
+    | some r => let p := evaStep DENM_POS_FRESH s.eva r; ({ s with eva := p }, showPos p)
+    | none => (s, "bad-op")
+  | ["tx", role, now] =>
+    match nat? role, int? now with
+    | some role, some now =>
+      let tx' := txStep VEHICLE_ROLE_NAMES VehicleRole_names role s.tx now
+      if tx'.out.length == s.tx.out.length then ({ s with tx := tx' }, "skipped")
+      else ({ s with tx := tx' }, "sent " ++ (match tx'.out.head? with | some (some n) => n | _ => "-"))
+    | _, _ => (s, "bad-op")
+  | ["role", r] =>
+    match nat? r with
+    | some r =>
+      let n := roleName VEHICLE_ROLE_NAMES r
+      let i := VehicleRole_names.idxOf n
+      (s, n ++ " " ++ (if i < VehicleRole_names.length then toString (VehicleRole_values.getD i 99) else "-"))
+    | none => (s, "bad-op")
   | ["gdt", ms] =>
     match int? ms with
-    | some ms => ((), toString (gdt ms))
-    | none => ((), "bad-op")
+    | some ms => (s, toString (gdt ms))
+    | none => (s, "bad-op")
   | ["rec", msec, rx] =>
     match int? msec, int? rx with
-    | some m, some r => ((), toString (reconstruct m r))
-    | _, _ => ((), "bad-op")
-  | _ => ((), "bad-op")
+    | some m, some r => (s, toString (reconstruct m r))
+    | _, _ => (s, "bad-op")
+  | ["clock", p3, p6] =>
+    match rat? p3, rat? p6 with
+    | some p3, some p6 => (s, s!"{clockMs RX_CLOCK_EXACT_CAM p3 p6} {clockMs RX_CLOCK_EXACT_VAM p3 p6}")
+    | _, _ => (s, "bad-op")
+  | ["rxrec", kind, msec, p3, p6] =>
+    match int? msec, rat? p3, rat? p6 with
+    | some m, some p3, some p6 =>
+      if kind == "cam" then (s, toString (reconstruct m (clockMs RX_CLOCK_EXACT_CAM p3 p6)))
+      else if kind == "vam" then (s, toString (reconstruct m (clockMs RX_CLOCK_EXACT_VAM p3 p6)))
+      else (s, "bad-op")
+    | _, _, _ => (s, "bad-op")
+  | ["ms", p6] =>
+    match rat? p6 with
+    | some p6 => (s, toString (msOfMicros p6))
+    | none => (s, "bad-op")
+  | ["conc", leader, hasC, id, radius, card, sched] =>
+    match nat? leader, nat? hasC, nat? id, rat? radius, nat? card, bits? sched with
+    | some l, some h, some id, some radius, some card, some sched =>
+      let m : Mgr := ⟨l == 1, if h == 1 then some ⟨id, radius, card⟩ else none⟩
+      (s, showInfo (concRun infoLocked m sched))
+    | _, _, _, _, _, _ => (s, "bad-op")
+  | "uper" :: fields =>
+    let parsed := fields.mapM (fun t => match t.splitOn ":" with
+      | [lo, hi, v] => (match int? lo, int? hi, int? v with
+        | some lo, some hi, some v => some ((⟨lo, hi⟩ : IntField), v)
+        | _, _, _ => none)
+      | _ => none)
+    match parsed with
+    | some fs => let b := encodeInts fs; (s, s!"{b.value} {b.len}")
+    | none => (s, "bad-op")
+  | _ => (s, "bad-op")
 
-def mapDomain : Domain := { σ := Unit, init := (), step := mapStep }
+def mapDomain : Domain := { σ := Drv, init := {}, step := mapStep }
 end FlexModel.Fac.Mapping
